@@ -31,9 +31,33 @@ MUT = {
  "M11-feature-role-swapped-on-refresh": ("spine/device_remote.go",
     "\tresult = NewFeatureRemote(uint(*fid.FeatureAddress.Feature), entity, *fid.FeatureType, *fid.Role)\n",
     "\trole := *fid.Role\n\tif len(entity.Features()) > 1 {\n\t\trole = model.RoleTypeServer\n\t}\n\tresult = NewFeatureRemote(uint(*fid.FeatureAddress.Feature), entity, *fid.FeatureType, role)\n"),
- "M12-half-repair-only-removed-entries-removed": ("spine/nodemanagement_detaileddiscovery.go",
-    "\t\t\t\tentityAddress := ei.Description.EntityAddress.Entity\n\t\t\t\tremovedEntity := remoteDevice.RemoveEntityByAddress(entityAddress)\n",
-    "\t\t\t\tif ei.Description.LastStateChange != nil && *ei.Description.LastStateChange != model.NetworkManagementStateChangeTypeRemoved {\n\t\t\t\t\tcontinue\n\t\t\t\t}\n\t\t\t\tentityAddress := ei.Description.EntityAddress.Entity\n\t\t\t\tremovedEntity := remoteDevice.RemoveEntityByAddress(entityAddress)\n"),
+ "N1-devinfo-guard-continue-to-return": ("spine/nodemanagement_detaileddiscovery.go",
+    "\t\t\t\tif slices.Equal(entityAddress, DeviceInformationAddressEntity) {\n\t\t\t\t\tcontinue\n\t\t\t\t}\n",
+    "\t\t\t\tif slices.Equal(entityAddress, DeviceInformationAddressEntity) {\n\t\t\t\t\treturn nil\n\t\t\t\t}\n"),
+ "N2-refresh-guard-weakened-to-empty-list": ("spine/device_remote.go",
+    "\t\t\thasNodeManagement(entity.Features()) && !hasNodeManagement(features) {\n",
+    "\t\t\tlen(features) == 0 {\n"),
+ "N3-new-entity-without-type-skipped-not-rejected": ("spine/device_remote.go",
+    "\t\t\t\treturn nil, errors.New(\"nodemanagement.replyDetailedDiscoveryData: invalid EntityInformation.Description.EntityType\")\n",
+    "\t\t\t\tcontinue\n"),
+ "N4-malformed-feature-element-stops-the-list": ("spine/device_remote.go",
+    "\t\t\tif fi.Description == nil || fi.Description.FeatureAddress == nil {\n\t\t\t\tcontinue\n\t\t\t}\n",
+    "\t\t\tif fi.Description == nil || fi.Description.FeatureAddress == nil {\n\t\t\t\tbreak\n\t\t\t}\n"),
+ "N5-function-without-name-stops-operations": ("spine/feature_remote.go",
+    "\t\tif sf.Function == nil || sf.PossibleOperations == nil {\n\t\t\tcontinue\n\t\t}\n",
+    "\t\tif sf.Function == nil || sf.PossibleOperations == nil {\n\t\t\tbreak\n\t\t}\n"),
+ "N6-refresh-guard-drops-rest-of-message": ("spine/device_remote.go",
+    "\t\t\thasNodeManagement(entity.Features()) && !hasNodeManagement(features) {\n\t\t\tcontinue\n",
+    "\t\t\thasNodeManagement(entity.Features()) && !hasNodeManagement(features) {\n\t\t\tbreak\n"),
+ "N7-devinfo-guard-removed": ("spine/nodemanagement_detaileddiscovery.go",
+    "\t\t\t\tif slices.Equal(entityAddress, DeviceInformationAddressEntity) {\n\t\t\t\t\tcontinue\n\t\t\t\t}\n",
+    "\t\t\t\tif slices.Equal(entityAddress, DeviceInformationAddressEntity) && false {\n\t\t\t\t\tcontinue\n\t\t\t\t}\n"),
+ "N8-revert-per-entry-removal": ("spine/nodemanagement_detaileddiscovery.go",
+    "\t\t\tfor _, ei := range []model.NodeManagementDetailedDiscoveryEntityInformationType{entity} {\n",
+    "\t\t\tfor _, ei := range data.EntityInformation {\n"),
+ "N9-rejected-removal-entry-skipped": ("spine/nodemanagement_detaileddiscovery.go",
+    "\t\t\t\tif err := remoteDevice.CheckEntityInformation(false, ei); err != nil {\n\t\t\t\t\treturn err\n\t\t\t\t}\n",
+    "\t\t\t\tif err := remoteDevice.CheckEntityInformation(false, ei); err != nil {\n\t\t\t\t\tcontinue\n\t\t\t\t}\n"),
 }
 names = sys.argv[1:] or list(MUT)
 results = {}
